@@ -26,9 +26,9 @@ import (
 
 var byzMutations = []string{"drop-first", "dup-first", "swap-first", "two-msgs", "second-block-msg", "with-relayer-msg", "other-author", "other-author-consistent", "fee-recipient", "fork-parent",
 	"beacon-root", "blob-gas", "future-ts", "goat-omit-last", "goat-omit-all", "goat-dup", "goat-reorder", "goat-flip", "goat-count", "bad-sig", "timeout-height", "memo",
-	"too-many", "garbage-first", "nil-payload", "foreign-msg-tx", "non-proposer-relayer-tx", "parent-field", "number-field", "extra-data-short", "field-length", "field-length", "block-msg-inside-relayer-tx"}
+	"too-many", "garbage-first", "nil-payload", "foreign-msg-tx", "non-proposer-relayer-tx", "parent-field", "number-field", "extra-data-short", "field-length", "field-length", "block-msg-inside-relayer-tx", "content-under-same-hash", "content-under-same-hash"}
 
-var junkKinds = []string{"stale-seq", "ex-proposer", "expired", "foreign", "block-msg", "valid-empty-vote", "valid-empty-vote", "valid-empty-vote", "bad-sig", "memo"}
+var junkKinds = []string{"stale-seq", "ex-proposer", "expired", "expired-by-one", "expired-by-one", "foreign", "block-msg", "valid-empty-vote", "valid-empty-vote", "valid-empty-vote", "bad-sig", "memo"}
 
 func (w *World) valActorByAddr(addr []byte) *ValActor {
 	return w.Cmt.valIndex(addr)
@@ -357,6 +357,24 @@ func (w *World) mutateProposal(n *Node, h int64, t time.Time, pv *cmttypes.Valid
 		}
 		w.probe("byz-field-length/" + name)
 		return resign(m, nil)
+	case "content-under-same-hash":
+		// the payload names a block hash the verifiers may already know (this height's honest
+		// payload, which they validated in an earlier round, or the committed head itself) but
+		// carries other content: only asking the engine again can tell
+		m := clone()
+		if r.Chance(0.3) && parent != nil {
+			m.Payload.BlockHash = append([]byte{}, m.Payload.ParentHash...)
+		}
+		switch r.Intn(3) {
+		case 0:
+			m.Payload.StateRoot = sha(m.Payload.StateRoot, []byte("other"))
+		case 1:
+			m.Payload.GasUsed += 21000
+			m.Payload.ReceiptsRoot = sha(m.Payload.ReceiptsRoot, []byte("other"))
+		default:
+			m.Payload.Transactions = append(append([][]byte{}, m.Payload.Transactions...), append([]byte{0x02}, r.Bytes(60)...))
+		}
+		return resign(m, nil)
 	case "extra-data-short":
 		m := clone()
 		m.Payload.ExtraData = m.Payload.ExtraData[:len(m.Payload.ExtraData)-1]
@@ -625,6 +643,10 @@ func (w *World) judgePrepareFailure(pn *Node, h int64, t time.Time, txs [][]byte
 		shape = "system-tx-refused"
 	}
 	w.violate("C08", "honest-proposer-cannot-build", shape, "height %d: PrepareProposal on node %d failed with a synced, well-behaved execution layer and no injected fault: %v", h, pn.ID, err)
+	// C19: nothing the chain accepted earlier may make block processing fail (a proposer that cannot
+	// build, on every node, is a halted chain)
+	w.Stats.OracleEvals["C19"]++
+	w.violate("C19", "block-building-fails", shape, "height %d: PrepareProposal on node %d failed without any fault: %v", h, pn.ID, err)
 }
 
 func (w *World) payloadTimestamp(txs [][]byte) uint64 {
@@ -731,6 +753,9 @@ func (w *World) injectJunk(n *Node, kind string) {
 		}
 	case "expired":
 		raw, err = w.proposerTx(cv.Proposer, []sdk.Msg{accept}, TxOpts{TimeoutHeight: uint64(maxInt(1, int(w.Cmt.Height)-1))})
+	case "expired-by-one":
+		// time-out height = the last committed height: still fine for the mempool, expired for the block being built
+		raw, err = w.proposerTx(cv.Proposer, []sdk.Msg{accept}, TxOpts{TimeoutHeight: uint64(maxInt(1, int(w.Cmt.Height)))})
 	case "foreign":
 		var fm sdk.Msg = &authtypes.MsgUpdateParams{Authority: cv.Proposer.Addr(), Params: authtypes.DefaultParams()}
 		if r.Chance(0.5) {
